@@ -25,6 +25,19 @@ Proof.
   field. exact H.
 Qed.
 
+(* a derivative order above the spline order vanishes identically *)
+Lemma dB_high_order_zero side : forall n k i x, (n < k)%nat -> dBfun kn side k n i x = zero.
+Proof.
+  induction n as [|n IH]; intros k i x H.
+  - destruct k; [lia|reflexivity].
+  - destruct k as [|k]; [lia|].
+    change (dBfun kn side (S k) (S n) i x) with
+      (mul (ofZ (Z.of_nat (S n)))
+           (sub (wdiv (dBfun kn side k n i x) (sub (kn (i + Z.of_nat (S n))) (kn i)))
+                (wdiv (dBfun kn side k n (i + 1) x) (sub (kn (i + Z.of_nat (S n) + 1)) (kn (i + 1)))))).
+    rewrite (IH k i x), (IH k (i + 1) x) by lia. rewrite !wdiv_zero_num. ring.
+Qed.
+
 Section Piece.
 Variable side : bool.
 Variable l : Z.
